@@ -600,9 +600,14 @@ trie_notify(struct trie_node *n,
 			tn = qb_list_entry(list, struct qb_map_notifier, list);
 			trie_notify_ref(tn);
 
+			/* the notifiers on the root node are the global ones
+			 * (registered with a NULL key): they see every key,
+			 * with or without QB_MAP_NOTIFY_RECURSIVE, as in the
+			 * other map types.
+			 */
 			if ((tn->events & event) &&
 			    ((tn->events & QB_MAP_NOTIFY_RECURSIVE) ||
-			     (n == c))) {
+			     (n == c) || (c->parent == NULL))) {
 				tn->callback(event, (char *)key, old_value,
 					     value, tn->user_data);
 			}
